@@ -107,7 +107,16 @@ def surface_script(names, nops, ops=OPS):
         from mouette.mesh.subdivision import SurfaceSubdivision
         name = names[sx.choice("mesh", len(names))] if len(names) > 1 else names[0]
         V, faces = SURF[name]
-        mesh = meshgen.build(meshgen.generic_coords(V), (), faces)
+        if sx.flag("integer_coordinates"):
+            # vertices stored with an integer dtype (lattice data): new vertices are still exact centres
+            import mouette as M
+            from mouette.mesh.mesh import _instanciate_raw_mesh_data
+            d = M.mesh.RawMeshData()
+            d.vertices += [np.array([int(round(7 * c)) for c in p], dtype=np.int64) for p in meshgen.generic_coords(V)]
+            d.faces += [tuple(f) for f in faces]
+            mesh = _instanciate_raw_mesh_data(d)
+        else:
+            mesh = meshgen.build(meshgen.generic_coords(V), (), faces)
         queried = sx.flag("connectivity_queried_before")
         if queried:
             for v in range(V):
